@@ -20,7 +20,7 @@ func init() {
 	props["C15"] = &propInfo{Level: "other", Explanation: "Decides structural necessary conditions of 'the parser records exactly what the source says, or errors': (R15.1) every grammar production is read from grammar.y; each value-carrying right-hand-side symbol must be used by its semantic action (outside debug prints), and the binding of every production - which $k feeds which syntax-tree field, which $k is appended - must equal the confirmed binding table (78 alternatives, frozen after reading; a production whose signature changes is reported until re-confirmed); contextual keywords return exactly their own spelling; (R15.2) grammar.go is byte-identical to `goyacc -l` run on grammar.y (goyacc built offline from the cached x/tools) and goyacc reports 0 shift/reduce and 0 reduce/reduce conflicts, so the tables implement exactly that grammar; (R15.3) token totality: Lex handles all eight text/scanner token classes explicitly; classes that are not tokens of the language (Float, Char, RawString) record an error; the integer literal is parsed as a signed 64-bit decimal whose error is checked, and its conversion to int is value-preserving; (R15.4) the keyword map equals the %token keywords and every keyword is either usable as a name through the `keyword` production or in the reserved table {enum, oneway}; (R15.5) lexical and syntax errors fail the parse: the scanner's Error hook is installed, parse() returns a file only behind lexer.err == nil and file != nil. Not decided: print -> parse -> compare over generated trees (needs execution).",
 		Trusted: []string{"goyacc (x/tools v0.29.0 cmd/goyacc) as the reference generator", "confirmed binding table in rules_c15.go", "text/scanner token classes"}}
 
-	register(&Rule{ID: "R15.1", Props: []string{"C15"}, Floor: 78,
+	register(&Rule{ID: "R15.1", Props: []string{"C15", "C05"}, Floor: 78,
 		Doc: "grammar actions: every value-carrying symbol used; production -> field bindings equal the confirmed table; keywords return their own spelling",
 		Run: runR15_1})
 	register(&Rule{ID: "R15.2", Props: []string{"C15"}, Floor: 2,
@@ -146,8 +146,14 @@ func runR15_1(c *Ctx, r *R) {
 		key := "grammar.y/" + sig
 		seen[sig] = true
 		pos := fmt.Sprintf("internal/lang/parser/grammar.y:%d", a.Line)
+		// keyword-named fields, enum values and methods (C05: "also ... for keyword-named fields") get their
+		// generated accessor name from these productions; the rest of the grammar belongs to C15 alone
+		props := []string{"C15"}
+		if a.LHS == "keyword" || (len(a.RHS) == 1 && a.RHS[0] == "keyword") {
+			props = append(props, "C05")
+		}
 		report := func(st Status, format string, args ...any) {
-			for _, p := range r.rule.Props {
+			for _, p := range props {
 				r.c.Obs = append(r.c.Obs, &Ob{Prop: p, Rule: r.rule.ID, Key: key, Pos: pos, Status: st.String(), status: st, Msg: fmt.Sprintf(format, args...)})
 			}
 			r.n++
@@ -203,7 +209,9 @@ func runR15_1(c *Ctx, r *R) {
 	}
 	sort.Strings(missing)
 	if len(missing) > 0 {
-		r.Bad("grammar.y/productions", 0, "productions of the confirmed grammar are missing: %v", missing)
+		sub := &R{c: r.c, rule: &Rule{ID: r.rule.ID, Props: []string{"C15"}}}
+		sub.Bad("grammar.y/productions", 0, "productions of the confirmed grammar are missing: %v", missing)
+		r.n += sub.n
 	}
 }
 
